@@ -378,3 +378,190 @@ func exprOrEmpty(e ast.Expr) string {
 	}
 	return types.ExprString(e)
 }
+
+// c20Cache — a keyed container that remembers something derived from its table (the sorted key list
+// its comparison walks) forgets it whenever the table changes. Cache fields are the fields of the
+// container, other than the table itself, that the comparison path (CompareTo/Equals and the
+// same-receiver helpers they call) reads and that some method assigns. Every method that changes the
+// table — calls a mutating method on it (Put*/Add*/Remove*/Clear*/Set*/Sort*), assigns it, or hands it
+// to a decoder — must assign each cache field too (directly or through a same-receiver helper), on
+// pain of comparing by the keys of an earlier state: the sign then no longer reverses on swap.
+func c20Cache(p *core.Program, r *core.Report, t *types.Named) {
+	if !c20IsKeyed(t) {
+		return
+	}
+	st := t.Underlying().(*types.Struct)
+	tableField := ""
+	for i := 0; i < st.NumFields(); i++ {
+		ft := st.Field(i).Type()
+		if pt, ok := ft.(*types.Pointer); ok {
+			ft = pt.Elem()
+		}
+		if n, ok := ft.(*types.Named); ok && n.Obj().Pkg() != nil && strings.HasSuffix(n.Obj().Pkg().Path(), "util/hmap") {
+			tableField = st.Field(i).Name()
+		}
+	}
+	if tableField == "" {
+		return
+	}
+	methods := p.MethodsOf(t)
+	byName := map[string]*core.FuncInfo{}
+	for _, m := range methods {
+		byName[m.Obj.Name()] = m
+	}
+	// closure of same-receiver calls
+	calls := func(fi *core.FuncInfo) []*core.FuncInfo {
+		var out []*core.FuncInfo
+		if fi.Decl.Body == nil {
+			return nil
+		}
+		rn := recvName(fi)
+		ast.Inspect(fi.Decl.Body, func(n ast.Node) bool {
+			if call, ok := n.(*ast.CallExpr); ok {
+				if sel, ok := call.Fun.(*ast.SelectorExpr); ok {
+					if id, ok := ast.Unparen(sel.X).(*ast.Ident); ok && id.Name == rn {
+						if m := byName[sel.Sel.Name]; m != nil {
+							out = append(out, m)
+						}
+					}
+				}
+			}
+			return true
+		})
+		return out
+	}
+	closure := func(root *core.FuncInfo) map[*core.FuncInfo]bool {
+		seen := map[*core.FuncInfo]bool{}
+		var walk func(f *core.FuncInfo)
+		walk = func(f *core.FuncInfo) {
+			if f == nil || seen[f] {
+				return
+			}
+			seen[f] = true
+			for _, c := range calls(f) {
+				walk(c)
+			}
+		}
+		walk(root)
+		return seen
+	}
+	fieldUses := func(fi *core.FuncInfo) (reads, writes map[string]bool) {
+		reads, writes = map[string]bool{}, map[string]bool{}
+		if fi.Decl.Body == nil {
+			return
+		}
+		rn := recvName(fi)
+		lhs := map[*ast.SelectorExpr]bool{}
+		ast.Inspect(fi.Decl.Body, func(n ast.Node) bool {
+			if as, ok := n.(*ast.AssignStmt); ok {
+				for _, l := range as.Lhs {
+					if sel, ok := ast.Unparen(l).(*ast.SelectorExpr); ok {
+						if id, ok := ast.Unparen(sel.X).(*ast.Ident); ok && id.Name == rn {
+							lhs[sel] = true
+							writes[sel.Sel.Name] = true
+						}
+					}
+				}
+			}
+			return true
+		})
+		ast.Inspect(fi.Decl.Body, func(n ast.Node) bool {
+			if sel, ok := n.(*ast.SelectorExpr); ok && !lhs[sel] {
+				if id, ok := ast.Unparen(sel.X).(*ast.Ident); ok && id.Name == rn {
+					if fv, ok := fi.Pkg.TypesInfo.ObjectOf(sel.Sel).(*types.Var); ok && fv.IsField() {
+						reads[sel.Sel.Name] = true
+					}
+				}
+			}
+			return true
+		})
+		return
+	}
+	cmpReads := map[string]bool{}
+	for _, root := range []string{"CompareTo", "Equals"} {
+		for f := range closure(byName[root]) {
+			rd, _ := fieldUses(f)
+			for k := range rd {
+				cmpReads[k] = true
+			}
+		}
+	}
+	written := map[string]bool{}
+	for _, m := range methods {
+		_, wr := fieldUses(m)
+		for k := range wr {
+			written[k] = true
+		}
+	}
+	var caches []string
+	for i := 0; i < st.NumFields(); i++ {
+		f := st.Field(i).Name()
+		if f != tableField && cmpReads[f] && written[f] {
+			caches = append(caches, f)
+		}
+	}
+	tn := "lang/value." + t.Obj().Name()
+	if len(caches) == 0 {
+		r.OK("C20.cache", tn, "-", "the comparison reads nothing remembered beside the table")
+		return
+	}
+	mutName := func(n string) bool {
+		l := strings.ToLower(n)
+		for _, pre := range []string{"put", "add", "remove", "clear", "set", "sort", "read", "toobject"} {
+			if strings.HasPrefix(l, pre) {
+				return true
+			}
+		}
+		return false
+	}
+	for _, m := range methods {
+		if m.Decl.Body == nil {
+			continue
+		}
+		rn := recvName(m)
+		mutates := false
+		ast.Inspect(m.Decl.Body, func(n ast.Node) bool {
+			switch v := n.(type) {
+			case *ast.CallExpr:
+				if sel, ok := v.Fun.(*ast.SelectorExpr); ok && mutName(sel.Sel.Name) {
+					if inner, ok := ast.Unparen(sel.X).(*ast.SelectorExpr); ok && inner.Sel.Name == tableField {
+						if id, ok := ast.Unparen(inner.X).(*ast.Ident); ok && id.Name == rn {
+							mutates = true
+						}
+					}
+				}
+			case *ast.AssignStmt:
+				for _, l := range v.Lhs {
+					if sel, ok := ast.Unparen(l).(*ast.SelectorExpr); ok && sel.Sel.Name == tableField {
+						if id, ok := ast.Unparen(sel.X).(*ast.Ident); ok && id.Name == rn {
+							mutates = true
+						}
+					}
+				}
+			}
+			return true
+		})
+		if !mutates {
+			continue
+		}
+		resets := map[string]bool{}
+		for f := range closure(m) {
+			_, wr := fieldUses(f)
+			for k := range wr {
+				resets[k] = true
+			}
+		}
+		var missing []string
+		for _, cf := range caches {
+			if !resets[cf] {
+				missing = append(missing, cf)
+			}
+		}
+		c := tn + "." + m.Obj.Name()
+		if len(missing) > 0 {
+			r.Viol("C20.cache", c, p.Pos(m.Decl.Pos()), "changes "+tableField+" without resetting "+strings.Join(missing, ", ")+", which the comparison reads: after this call CompareTo/Equals judge by the remembered keys of the earlier state")
+		} else {
+			r.OK("C20.cache", c, p.Pos(m.Decl.Pos()), "resets "+strings.Join(caches, ", "))
+		}
+	}
+}
